@@ -54,6 +54,7 @@ class Facts:
         """isinstance(subject, C) / type(subject) is C holds for some C in classes (dotted, e.g. 'ast.Constant')."""
         subject = strip_sites(subject)
         for fx, pol in self.atoms:
+            fx, pol = norm_atom(fx, pol)
             got = match_isinstance(fx)
             if got is None:
                 continue
@@ -124,6 +125,14 @@ class Facts:
 
 NEG = {ast.Eq: ast.NotEq, ast.NotEq: ast.Eq, ast.Lt: ast.GtE, ast.GtE: ast.Lt, ast.Gt: ast.LtE, ast.LtE: ast.Gt, ast.Is: ast.IsNot, ast.IsNot: ast.Is, ast.In: ast.NotIn, ast.NotIn: ast.In}
 FLIP = {ast.Eq: ast.Eq, ast.NotEq: ast.NotEq, ast.Lt: ast.Gt, ast.Gt: ast.Lt, ast.LtE: ast.GtE, ast.GtE: ast.LtE, ast.Is: ast.Is, ast.IsNot: ast.IsNot}
+
+
+def norm_atom(fx: ast.AST, pol: bool) -> Tuple[ast.AST, bool]:
+    """`a is not b` False -> `a is b` True;  `a != b` False -> `a == b` True (and the converse)."""
+    if isinstance(fx, ast.Compare) and len(fx.ops) == 1 and type(fx.ops[0]) in (ast.IsNot, ast.NotEq, ast.NotIn):
+        flip = {ast.IsNot: ast.Is, ast.NotEq: ast.Eq, ast.NotIn: ast.In}[type(fx.ops[0])]
+        return ast.Compare(left=fx.left, ops=[flip()], comparators=fx.comparators), not pol
+    return fx, pol
 
 
 def match_isinstance(fx: ast.AST) -> Optional[Tuple[ast.AST, List[ast.AST], bool]]:
